@@ -46,6 +46,15 @@ def Shape.nth (s : Shape) (n : Nat) : Option (Nat × Nat) :=
     let col := n - row * s.width
     if row < s.height then some (row, col) else none
 
+/-- `Shape::view` once `view_bounds` has resolved the two ranges to `r0 < r1 ≤ height`, `c0 < c1 ≤ width`
+(`Image::crop`, `view_owned`); used only to show that cropped images satisfy the hypotheses of the theorems -/
+def Shape.crop (s : Shape) (r0 r1 c0 c1 : Nat) : Shape :=
+  { s with width := c1 - c0, height := r1 - r0, start := s.offset r0 c0, end_ := s.offset (r1 - 1) c1 }
+
+/-- the shape `Surface::transpose` builds -/
+def Shape.transpose (s : Shape) : Shape :=
+  { s with width := s.height, height := s.width, colStride := s.rowStride, rowStride := s.colStride }
+
 /-- `image::Image`: shared pixel buffer of the parent + shape of the view -/
 structure Image where
   data : Array RGBA
@@ -337,6 +346,18 @@ def handle : List String → String
       | none => "ok"
       | some k => s!"rejected-at {k}"
     | none => "bad-op"
+  | ["crop", st, en, w, h, rs, cs, r0, r1, c0, c1] =>
+    match [st, en, w, h, rs, cs, r0, r1, c0, c1].mapM String.toNat? with
+    | some [st, en, w, h, rs, cs, r0, r1, c0, c1] =>
+      let t := (Shape.mk st en w h rs cs).crop r0 r1 c0 c1
+      s!"{t.start} {t.end_} {t.width} {t.height} {t.rowStride} {t.colStride}"
+    | _ => "bad-op"
+  | ["transpose", st, en, w, h, rs, cs] =>
+    match [st, en, w, h, rs, cs].mapM String.toNat? with
+    | some [st, en, w, h, rs, cs] =>
+      let t := (Shape.mk st en w h rs cs).transpose
+      s!"{t.start} {t.end_} {t.width} {t.height} {t.rowStride} {t.colStride}"
+    | _ => "bad-op"
   | ["kitty", bytes] =>
     match unhex bytes with
     | some bs => match kitty bs with
